@@ -475,10 +475,6 @@ theorem processor_stateless (p : Proc) (ms : List MolInput) :
 
 theorem processor_config_unchanged (p : Proc) (m : MolInput) : (procStep p m).1 = p := rfl
 
-theorem set_getD_self {α} (l : List α) (i : Nat) (d : α) (h : i < l.length) : l.set i (l.getD i d) = l := by
-  rw [List.getD_eq_getElem?_getD, List.getElem?_eq_getElem h]
-  exact List.set_getElem_self h
-
 /-- **shared_criteria_stateless.** Several processor objects — built with different arguments, possibly sharing one
 domain-criterion object (a region criterion made once, `same_chain`) or one selector — applied in ANY interleaving to
 any molecules: each application gives what a fresh processor with the arguments of that object gives on that
